@@ -14,6 +14,7 @@ def check(ctx):
     rep.floor("reader character classes", n4, 4)
     n5 = escapes.check_grid_layout(ctx, rep)
     rep.floor("grid header layout obligations", n5, 5)
+    escapes.check_column_layout(ctx, rep)
     n9 = escapes.check_separators(ctx, rep)
     rep.floor("separator writes inside enumerate loops", n9, 4)
     n10 = escapes.check_nesting_flag(ctx, rep)
